@@ -54,6 +54,8 @@ def maze_spec(R: Draw) -> dict:
         nodes[c] = {"content": R.choice(_TEMPLATES).format(x=x, y=y)}
         if R.bool(0.15):
             nodes[c]["attrs"] = {"k": {}}  # needs attributes: never a wrapper
+        elif R.bool(0.25):
+            nodes[c]["attrs"] = {"k": {"default": R.choice([None, 0])}}  # all attributes defaulted: still a wrapper
     tops = R.sample(conts + ["para"], R.int(1, 3))
     lead = "para " if R.bool(0.5) else ""
     nodes["doc"] = {"content": f"{lead}({' | '.join(tops)})*"}
@@ -79,7 +81,9 @@ def fill_maze_spec(R: Draw) -> dict:
             break
     nodes: dict = {"doc": {"content": "host+"}, "host": {"content": exprs.render(ast)}}
     for n in names:
-        nodes[n] = {"attrs": {"k": {}}} if n == "req" else {}
+        # "req" needs an attribute (never generatable); others sometimes have attributes that all have defaults, a
+        # default of None included - those stay generatable
+        nodes[n] = {"attrs": {"k": {}}} if n == "req" else ({"attrs": {"k": {"default": R.choice([None, 0, "d"])}}} if R.bool(0.3) else {})
     nodes["text"] = {}
     return {"nodes": nodes, "marks": {}}
 
